@@ -2,6 +2,7 @@
 package c14
 
 import (
+	"os"
 	"encoding/json"
 	"fmt"
 	"strings"
@@ -165,7 +166,19 @@ var extras = []ref.ExtraAttr{
 	{Key: "scale", Raw: `2.5e0`},
 	{Key: "x-unknown", Raw: `{"type":["null",{"type":"array","items":"x"}],"k":[[],{}],"n":null,"t":true}`},
 	{Key: "zzz", Raw: `[{"name":"q","type":"long"}]`},
+	// attribute names are case-sensitive and exact: these are unknown attributes too, however much they look like supported ones
+	{Key: "Size", Raw: `3`},
+	{Key: "Name", Raw: `"Sneaky"`},
+	{Key: "NAMESPACE", Raw: `"sn.eaky"`},
+	{Key: "Items", Raw: `"long"`},
+	{Key: "Values", Raw: `"int"`},
+	{Key: "logical_type", Raw: `"date"`},
+	{Key: "logical-type", Raw: `"date"`},
+	{Key: "Symbols", Raw: `["Z"]`},
+	{Key: "Type", Raw: `"string"`},
 }
+
+var caseVariantFrom = 9 // index of the first look-alike attribute in extras
 
 // withExtra returns copies of s, each with one extra attribute inserted at one object node (schema object or field object).
 func withExtra(s *ref.Schema, e ref.ExtraAttr) []*ref.Schema {
@@ -324,7 +337,91 @@ func checkDoc(c *fw.Ctx, ast *ref.Schema, doc string, variant string) {
 	if d := aschema.Diff(got, back); d != "" {
 		c.Violation("marshal-parse-not-identity|"+kind, fmt.Sprintf("parse(Marshal(s)) differs from s at %s — %s", d, clipS(string(out), 200)), det)
 	}
+	// history: the caller edits everything reachable from the result (deriving another schema from it is ordinary
+	// use), then parses the same document again: the second result is a function of the document alone
+	scramble(&got)
+	again, err, pan, _ := safeParse(doc)
+	if pan != nil || err != nil {
+		c.Violation("reparse-fails|"+kind+"|after-edit", fmt.Sprintf("parsing the same document again failed: err=%v panic=%v — %s", err, pan, clipS(doc, 200)), det)
+	} else if d := aschema.Diff(want, again); d != "" {
+		c.Violation("parse-depends-on-history|"+kind, fmt.Sprintf("after the first result was edited by the caller, parsing the same document again differs from the document at %s — %s", d, clipS(doc, 200)), det)
+	}
 	c.Nontrivial(doc)
+}
+
+// scramble overwrites everything reachable from s in place.
+func scramble(s *avro.Schema) {
+	s.Type = "scrambled-" + s.Type
+	for i := range s.Union {
+		scramble(&s.Union[i])
+	}
+	if len(s.Union) > 1 {
+		s.Union[0], s.Union[len(s.Union)-1] = s.Union[len(s.Union)-1], s.Union[0]
+	}
+	if o := s.Object; o != nil {
+		o.Name += "V2"
+		o.Namespace += ".v2"
+		o.LogicalType = "scrambled"
+		o.Size += 7
+		for i := range o.Symbols {
+			o.Symbols[i] = "S" + o.Symbols[i]
+		}
+		for i := range o.Fields {
+			o.Fields[i].Name += "_v2"
+			scramble(&o.Fields[i].Type)
+		}
+		scramble(&o.Items)
+		scramble(&o.Values)
+	}
+}
+
+var hdrFile string
+
+// checkFileHeader: the same document stored as avro.schema in a container-file header and read back with
+// FileSchema must give the same schema as SchemaFromString is required to give.
+func checkFileHeader(c *fw.Ctx, ast *ref.Schema, doc string, variant string) {
+	c.Eval(1)
+	kind := astKind(ast)
+	det := map[string]interface{}{"doc": clipS(doc, 600), "variant": variant, "path": "FileSchema"}
+	if hdrFile == "" {
+		dir := os.Getenv("VERIF_WORK")
+		if dir == "" {
+			dir = os.TempDir()
+		}
+		f, err := os.CreateTemp(dir, "c14hdr-*.avro")
+		if err != nil {
+			c.HarnessError("cannot create a scratch file: " + err.Error())
+			return
+		}
+		hdrFile = f.Name()
+		f.Close()
+	}
+	data, _ := ref.WriteFile(ref.StdMeta(doc, "null", true), "null", [16]byte{1, 2, 3, 4}, nil)
+	if err := os.WriteFile(hdrFile, data, 0o644); err != nil {
+		c.HarnessError("cannot write the scratch file: " + err.Error())
+		return
+	}
+	var got avro.Schema
+	var err error
+	if c.Guard("filesschema|"+kind, "FileSchema on a header holding "+clipS(doc, 200), det, func() { got, err = avro.FileSchema(hdrFile) }) {
+		return
+	}
+	if err != nil {
+		c.Violation("parse-error|"+kind+"|"+variant+"|file-header", fmt.Sprintf("valid schema in a file header rejected: %v — %s", err, clipS(doc, 200)), det)
+		return
+	}
+	if d := aschema.Diff(aschema.ToAvro(ast), got); d != "" {
+		c.Violation("parse-mismatch|"+kind+"|"+variant+"|file-header", fmt.Sprintf("schema read from a file header differs from the document at %s — %s", d, clipS(doc, 200)), det)
+	}
+	c.Nontrivial("hdr:" + doc)
+}
+
+// CleanupC14 removes the worker's scratch file.
+func cleanupC14() {
+	if hdrFile != "" {
+		os.Remove(hdrFile)
+		hdrFile = ""
+	}
 }
 
 func clipS(s string, n int) string {
@@ -390,12 +487,17 @@ func runCase(c *fw.Ctx, idx int) {
 				// the extra attribute first and last
 				doc = v.Print(&ref.PrintOpts{KeyOrder: keyOrder(0), Layout: 0})
 				checkDoc(c, ast, doc, "extra:"+e.Key)
+				if ei >= caseVariantFrom || vi == 0 {
+					checkFileHeader(c, ast, doc, "extra:"+e.Key)
+				}
 			}
 		}
+		checkFileHeader(c, ast, ast.Print(&ref.PrintOpts{KeyOrder: keyOrder(k % 24), Layout: k % 3}), "plain")
 		if ast.Nodes() <= 3 || k%16 == 0 {
 			checkMalformed(c, ast.Print(nil))
 			checkMalformed(c, ast.Print(&ref.PrintOpts{Layout: 2}))
 		}
+		cleanupC14()
 		if k%97 == 0 {
 			c.Sample(map[string]interface{}{"schema": ast.Print(nil), "permuted": ast.Print(&ref.PrintOpts{KeyOrder: keyOrder(17), Layout: 1})})
 		}
@@ -411,7 +513,7 @@ func init() {
 			if tier == "thorough" {
 				d += " plus depth 3 over a 6-leaf alphabet"
 			}
-			return "every reference schema AST of " + d + " under constructors {array, map, record(1 field), record(2 fields, namespace), record(3 fields), union [X], [null,X], [X,null], [null,X,boolean,double]}; each rendered under 24 key orderings (every permutation for objects with <=4 keys, rotations/reversals beyond) × 3 whitespace layouts, and with each of 9 extra attributes (doc, default null/object, aliases, order, precision, scale, unknown object, unknown array) inserted at each schema object and each field object; SchemaFromString result compared structurally with the expected avro.Schema; Marshal output checked with encoding/json, re-parsed by the reference parser and by the library; malformed documents = every truncation and every structural-token deletion/duplication of the small documents, oracle json.Valid; non-trivial = a distinct document that reached the comparison"
+			return "every reference schema AST of " + d + " under constructors {array, map, record(1 field), record(2 fields, namespace), record(3 fields), union [X], [null,X], [X,null], [null,X,boolean,double]}; each rendered under 24 key orderings (every permutation for objects with <=4 keys, rotations/reversals beyond) × 3 whitespace layouts, and with each of 18 extra attributes (doc, default null/object, aliases, order, precision, scale, unknown object, unknown array, and 9 look-alikes of supported attributes that differ only in case or punctuation: Size, Name, NAMESPACE, Items, Values, logical_type, logical-type, Symbols, Type) inserted at each schema object and each field object; SchemaFromString result compared structurally with the expected avro.Schema; Marshal output checked with encoding/json, re-parsed by the reference parser and by the library; after every document the caller-visible result is overwritten in place (every reachable string, slice element and size) and the same document parsed again, which must again equal the document; one rendering per AST and every look-alike-attribute document (plus one slot of every other extra) is also stored as avro.schema of a container-file header and read back with FileSchema, same oracle; malformed documents = every truncation and every structural-token deletion/duplication of the small documents, oracle json.Valid; non-trivial = a distinct document that reached the comparison"
 		},
 		Assumptions: []string{
 			"a nil Object and an all-zero Object, nil and empty slices are identified (rendering details, not structure)",
